@@ -104,7 +104,10 @@ def prove_path(entry, path, opts):
         flipped = False
         for k in bad:
             N, D, kk, sg = C.signs[k]
-            if r0['sign:%d' % k][0] == 'sat':
+            if r0['sign:%d' % k][0] != 'sat':
+                if sign_override.get(kk) != 0:
+                    sign_override[kk] = 0; flipped = True        # sign not decided within the cap: keep |e| as an atom (always sound)
+            else:
                 if kk not in sign_override:
                     sign_override[kk] = -sg; flipped = True      # try the opposite sign of the witness choice
                 elif sign_override[kk] != 0:
@@ -318,6 +321,7 @@ def solver_confirm(entry, path, name, asg, timeout_ms=20000):
         elif n.op == 'const': L.append("(define-fun n%d () Real %s)" % (i, smt.rat(n.c)))
         elif n.op in BIN: L.append("(define-fun n%d () Real (%s n%d n%d))" % (i, BIN[n.op], n.a, n.b))
         elif n.op == 'neg': L.append("(define-fun n%d () Real (- n%d))" % (i, n.a))
+        elif n.op == 'abs': L.append("(define-fun n%d () Real (ite (>= n%d 0) n%d (- n%d)))" % (i, n.a, n.a, n.a))
         else:
             L.append("(declare-fun n%d () Real)" % i); L.append(box(i, val[i]))
     for kind, ids in path.hyps:
